@@ -20,7 +20,7 @@ Not decided: encode->decode identity (values); decoders of dependencies.
 import collections
 import re
 from paths import Inter
-from common import short
+from common import short, slice_locals
 import panics
 import k6
 from C19_table import TABLE, ALLOC_TABLE, LOOPS, GROWTH
@@ -399,6 +399,59 @@ def r19_3(ctx, fx, seen):
                    detail="%s ; iteration without progress: %s" % (spec["why"], fn.path_sites(p) if p else None))
 
 
+def r19_4(ctx, fx):
+    """capacity of the Noise read path: poll_read slices `read_buffer[nread..nread + frame_size - remaining]` (auxiliary extension) and
+    decrypts into `decrypt_buffer`, with `nread <= canonical_max_read` and `frame_size` any value of the 2-byte prefix.  The slicing sites are
+    'state' entries of the table; the part of their argument that is visible in the constructor is decided here:
+      len(read_buffer) - canonical_max_read  >=  u16::MAX   and   len(decrypt_buffer) >= u16::MAX - NOISE_EXTRA_ENCRYPT_SPACE,
+      initial ReadData.max_read == canonical_max_read."""
+    from common import linform
+    N = "crypto::noise::"
+    fn = ctx.fn(fx, N + "NoiseSocket::new", "R19.4")
+    if fn is None:
+        return
+    aggs = [(n, s) for n, s in fn.aggregates(r"noise::NoiseSocket$") if "read_buffer" in s["rv"].get("fields", [])]
+    ctx.anchor("R19.4", "NoiseSocket literal with read_buffer", len(aggs), 1, cfg=fx.cfg)
+    tag = fx.const(N + "NOISE_EXTRA_ENCRYPT_SPACE")
+    for n, s in aggs:
+        rv = s["rv"]
+        f = dict(zip(rv["fields"], rv["ops"]))
+
+        def veclen(o):
+            c = fn.producer(o)
+            if c is not None and re.search(r"vec::from_elem$|Vec(<.*>)?::with_capacity$", c.name):
+                return linform(fn, fx, c.args[-1])
+            return None
+        rb = veclen(f["read_buffer"])
+        cm = linform(fn, fx, f["canonical_max_read"]) if "canonical_max_read" in f else None
+        ok = False
+        diff = None
+        if rb is not None and cm is not None:
+            diff = dict(rb)
+            for k_, c in cm.items():
+                diff[k_] = diff.get(k_, 0) - c
+            diff = {k_: c for k_, c in diff.items() if c != 0}
+            ok = set(diff) <= {""} and diff.get("", 0) >= 65535
+        ctx.ob("R19.4", "NoiseSocket::new/read_buffer-holds-read-ahead+largest-announced-frame", ok, site=fn.site(n), cfg=fx.cfg,
+               detail="len(read_buffer)=%s canonical_max_read=%s difference=%s, needs a constant >= 65535 (every value of the u16 length prefix)" % (rb, cm, diff))
+        db = None
+        if "decrypt_buffer" in f:
+            o = f["decrypt_buffer"]
+            d = fn.single_def((o.get("m") or o.get("c") or [None])[0])
+            if d and d[1] == "assign" and d[2]["rv"]["r"] == "agg" and d[2]["rv"].get("var") == "Some":
+                o = d[2]["rv"]["ops"][0]
+            db = veclen(o)
+        ctx.ob("R19.4", "NoiseSocket::new/decrypt_buffer-holds-largest-plaintext", db is not None and set(db) <= {""} and isinstance(tag, int) and db.get("", 0) >= 65535 - tag,
+               site=fn.site(n), cfg=fx.cfg, detail="len(decrypt_buffer)=%s, needs >= 65535 - %s" % (db, tag))
+        # the initial read window is the canonical one
+        rs = None
+        for l in slice_locals(fn, f["read_state"]) if "read_state" in f else []:
+            d = fn.single_def(l)
+            if d and d[1] == "assign" and d[2]["rv"]["r"] == "agg" and d[2]["rv"].get("var") == "ReadData":
+                rs = linform(fn, fx, d[2]["rv"]["ops"][0])
+        ctx.ob("R19.4", "NoiseSocket::new/initial-max_read==canonical_max_read", rs is not None and rs == cm, site=fn.site(n), cfg=fx.cfg, detail="%s == %s" % (rs, cm))
+
+
 def run(ctx):
     for cfg in ctx.configs():
         fx = ctx.facts(cfg)
@@ -409,6 +462,7 @@ def run(ctx):
         r19_2(ctx, fx, seen)
         r19_2b(ctx, fx, seen)
         r19_3(ctx, fx, seen)
+        r19_4(ctx, fx)
     ctx.assume("prost / unsigned-varint / multihash / multiaddr / cid / snow / bytes decoders return errors instead of panicking")
     ctx.assume("in-memory sizes are < 2^63, so usize additions of lengths and offsets cannot overflow")
     ctx.assume("quick: feature configuration `default`; thorough adds `--all-features` (webrtc substream / noise reply decoders)")
